@@ -63,6 +63,10 @@ def run(ck, replay=None):
 
     if replay:
         d = json.load(open(replay))["detail"]
+        if "cfg" not in d:  # real-kernel witness: the run is short, repeat it whole
+            for exe in (dbg, rel):
+                ck.consume_result(vlib.run_one([exe, "real", str(ck.seed * 53), "400"]), "replay real-kernel")
+            return "replay of the real-kernel runs"
         c = d["cfg"]
         flags = (1 if c["sqpoll"] else 0) | (2 if c["sqe128"] else 0) | (4 if c["cqe32"] else 0)
         exe = dbg if d.get("profile") == "debug" else rel
@@ -83,6 +87,12 @@ def run(ck, replay=None):
                 length = 10 if (c[5], c[6]) == (0, 0) else 8
             jobs.append(("%s exh len=%d cfg=%s" % (prof, length, c),
                          dict(argv=[exe, "exh", str(ck.seed), str(length)] + [str(x) for x in c], timeout=3600)))
+    # real kernel: rings from rusl::io_uring::setup_io_uring (requested sizes incl. non-powers of
+    # two), several laps, close(bad fd) operations stamped in user_data (engines/h_ring/src/real.rs)
+    for prof, exe in (("debug", dbg), ("release", rel)):
+        for i in range(2 if quick else 8):
+            jobs.append(("%s real-kernel #%d" % (prof, i),
+                         dict(argv=[exe, "real", str(ck.seed * 53 + i), str(400 if quick else 5000)], timeout=900)))
     # random long interleavings, systematic over (size, cq size, sq start, cq start)
     nshard = 16
     runs = 40_000 if quick else 250_000
@@ -128,6 +138,8 @@ def run(ck, replay=None):
         % ("7" if quick else "10 (empty start) / 8 (prefilled start)", len(cfgs)))
     ck.assume("the kernel side is simulated in the same thread: interleaving is at call granularity, as the property fixes it; "
               "memory-ordering effects between real threads are not observable here")
+    ck.assume("real-kernel mode: io_uring must be available to the process; close of an unopened descriptor completes inline with -EBADF, "
+              "in submission order; consumption = the count io_uring_enter reports as submitted")
     ck.assume("sq_array is initialised to the identity as rusl::io_uring::setup_io_uring does; ring sizes are powers of two (1,2,4,8; cq = n or 2n)")
     ck.assume("observations that are not refuting events are only counted: None from get_next_sqe_slot with free slots, "
               "flush return value != pending, get_next_cqe releasing the slot before the caller reads through the reference")
@@ -136,5 +148,7 @@ def run(ck, replay=None):
             "simulated-kernel steps {consume k, post k} on a ring built over harness memory; random runs cycle through every "
             "(ring size 1/2/4/8, cq size n/2n, SQ head start, CQ head start) with random prefill, flags (SQPOLL/SQE128/CQE32) and "
             "one of six step-weight personalities; short runs are enumerated exhaustively; each run ends with a drain; "
+            "plus real-kernel runs: rings set up by setup_io_uring with requested sizes 1..9,12,24,33,100, batches of stamped close(bad fd) "
+            "operations over several laps, completions compared with submissions per batch; "
             "distinct = (profile, size, cq size, SQ start class, CQ start class) cells, (size, flags) cells and ring events reached "
             "(index wraps, 2^31 crossings, SQ full, CQ full)")
